@@ -291,6 +291,16 @@ def render_machine(prog, base_name=None):
             if t["dst"] in inh:
                 line = line.replace(f".to({t['dst']},", f".to({base_name}.{t['dst']},", 1)
             body.append(line)
+    for a in prog.get("any", []):
+        # ``ev = target.from_.any(...)``: one transition from every non-final state (declared after the
+        # states and the explicit transitions); an ``event=`` argument there names nothing
+        kw = []
+        if a.get("alias"):
+            kw.append(f"event={a['alias']!r}")
+        for g in GROUPS:
+            if a.get(g) and _names(a[g], prog) != "[]":
+                kw.append(f"{g}={_names(a[g], prog)}")
+        body.append(f"    {a['events'][0]} = {a['dst']}.from_.any({', '.join(kw)})\n")
     lines.append("".join(body).rstrip("\n"))
     # decorator-attached callbacks: @<event>.<group> / @<state>.enter|exit right after the declarations
     for cbid in sorted(prog["cbs"]):
